@@ -27,9 +27,11 @@ def h_gen(c):
             kw[k] = dec(c[k])
     if "cheb_samples" in c:
         kw["cheb_samples"] = int(c["cheb_samples"])
+    if "return_coef" in c:
+        kw["return_coef"] = bool(c["return_coef"])      # False: cos / sin / 1/x hand back the Chebyshev series object
     if c.get("float_degree") and "degree" in kw:
         kw["degree"] = float(kw["degree"])          # the command line hands every number over as a float (20 -> 20.0)
-    out = getattr(P, cls)().generate(**kw)
+    out = getattr(P, cls)(**(c.get("ctor") or {})).generate(**kw)
     scale = None
     typ = type(out).__name__
     if isinstance(out, tuple):
